@@ -27,7 +27,7 @@ VARIANTS = {
     "K1": ["quant_in_qualitative", "quant_in_ordinal"],
     "X3": ["string_cell", "string_cell", "string_cell_category"],
     "X4": ["unranked_value"],
-    "K2": ["unsupported_sort_by"],
+    "K2": ["gini", "other_family", "prefix", "capitalised", "empty", "none"],
     "R1": ["refit"],
 }
 
@@ -209,7 +209,18 @@ def mutate(sess, fault, variant, op, X, y, kwargs):
         X[col] = X[col].astype("object")
         X.iat[pos, X.columns.get_loc(col)] = "NOT_RANKED"
     elif fault == "K2":
-        ctor = {"sort_by": "gini"}
+        cls = world["sut"]["class"]
+        valid = ["kruskal"] if cls == "ContinuousCarver" else ["tschuprowt", "cramerv"]
+        ctor = {
+            "sort_by": {
+                "gini": "gini",
+                "other_family": "tschuprowt" if cls == "ContinuousCarver" else "kruskal",
+                "prefix": valid[-1][:-1],  # 'cramer' / 'kruska'
+                "capitalised": valid[0].capitalize(),
+                "empty": "",
+                "none": None,
+            }[variant]
+        }
     return X, y, kwargs, ctor, desc
 
 
